@@ -179,6 +179,10 @@ class G:
         """a [s,e) range from the boundary pool"""
         r = self.r
         c = r.random()
+        if r.random() < 0.03:
+            # degenerate: the exclusive end is 0 (an empty range whatever the start is)
+            self.count("rng:end0")
+            return r.choice([0, 1, self.val_near(keys), 65536, U32 - 1]), 0
         if c < 0.15:
             k = r.choice(list(keys)) if keys else self.key()
             return k * CH, (k + 1) * CH
@@ -203,6 +207,10 @@ class G:
         self.count("histop:" + op)
         if op in ("add", "cadd", "addint", "rem", "crem"):
             self.emit("%s %s %d" % (op, x, self.val_near(keys)))
+        elif op == "addmany" and r.random() < 0.3:
+            k = r.choice(list(keys)) if keys else self.key()
+            self.emit("addmanyfrom %s %d %d" % (x, k * CH if r.random() < 0.7 else self.val_near(keys), r.choice([1, 3, 10, 40])))
+            self.count("histop:addmanyfrom")
         elif op == "addmany":
             n = r.choice([1, 2, 5, 30])
             if r.random() < 0.5:
